@@ -1336,6 +1336,56 @@ def fd_shard(arg):
     return t
 
 
+# keys of mixed, mutually non-orderable types (and partially ordered frozensets): "equal FrozenDicts have equal hashes
+# regardless of insertion order" must not depend on the keys being sortable
+MIXED_KEY_CODES = ('int1', 'none', 'tuple', 'fs1', 'fs2', 'fs12', 'str', 'float')
+
+
+def mixed_key(code):
+    return {'int1': 1, 'none': None, 'tuple': (0,), 'fs1': frozenset({1}), 'fs2': frozenset({2}),
+            'fs12': frozenset({1, 2}), 'str': 'a', 'float': 2.5}[code]
+
+
+def fd_mixed_check(FrozenDict, codes, t):
+    """All insertion orders of one key set: equal objects, equal hashes, usable as set members."""
+    perms = list(itertools.permutations(codes))
+    built = []
+    for perm in perms:
+        fd = FrozenDict([(mixed_key(c), i) for c, i in zip(perm, [codes.index(c) for c in perm])])
+        built.append((perm, fd, fd_hash_outcome(fd)))
+    ref_perm, ref, ref_h = built[0]
+    for perm, fd, h in built:
+        case = {'kind': 'frozen-mixed', 'keys': list(codes), 'order': list(perm), 'reference_order': list(ref_perm)}
+        t.count(nontrivial=len(codes) >= 2)
+        if fd != ref:
+            t.bad('C17|frozen:mixed-keys|insertion-orders-not-equal', case, True, False)
+        elif h != ref_h or h[0] != 'ok':
+            t.bad('C17|frozen:mixed-keys|equal-FrozenDicts-hash-differently', case, ref_h, h)
+        elif ref not in {fd}:
+            t.bad('C17|frozen:mixed-keys|set-lookup-misses-an-equal-FrozenDict', case, True, False)
+    # derivations keep the hash: updated() with nothing new, and a rebuild from a plain dict
+    fd = built[-1][1]
+    for name, other in (('updated()', fd.updated()), ('FrozenDict(dict(fd))', FrozenDict(dict(fd)))):
+        t.count(nontrivial=True)
+        if other != ref or fd_hash_outcome(other) != ref_h:
+            t.bad('C17|frozen:mixed-keys|equal-FrozenDicts-hash-differently',
+                  {'kind': 'frozen-mixed', 'keys': list(codes), 'order': list(built[-1][0]), 'via': name},
+                  ref_h, fd_hash_outcome(other))
+
+
+def fd_mixed_shard(arg):
+    from boltons.dictutils import FrozenDict
+    idx, nshards, maxkeys = arg
+    t = inputs.Tally()
+    i = 0
+    for n in range(1, maxkeys + 1):
+        for codes in itertools.combinations(MIXED_KEY_CODES, n):
+            if i % nshards == idx:
+                fd_mixed_check(FrozenDict, codes, t)
+            i += 1
+    return t
+
+
 # ======================================================================================================
 # run / replay
 # ======================================================================================================
@@ -1367,6 +1417,9 @@ def run(ctx):
     inputs.run_shards(ctx, fd_shard, [(values, i, n) for i in range(n)], part='frozendict-matrix', rule=(
         'every ordered content over <=3 keys x value alphabet x every mutator (hash cached / not yet computed) x '
         'every derivation (updated, copy, deepcopy, pickle protocols, fromkeys, |)'))
+    inputs.run_shards(ctx, fd_mixed_shard, [(i, 8, 3 if quick else 4) for i in range(8)], part='frozendict-mixed-keys',
+                      rule='every key set of <= %d keys out of %r in every insertion order: equality and hash'
+                           % (3 if quick else 4, MIXED_KEY_CODES))
     cov['bounds'] = {'OneToOne/ManyToMany': {'keys': list(DOM), 'values': list(DOM),
                                              'sides': ['forward', 'inv'], 'search': 'fixpoint'},
                      'FrozenDict': {'keys': list(FD_KEYS), 'values': list(values), 'max_items': 3,
@@ -1388,6 +1441,11 @@ def replay(ctx, data):
     case = data['case']
     kind = case.get('kind') or case['config']['kind']
     msgs = []
+    if kind == 'frozen-mixed':
+        from boltons.dictutils import FrozenDict
+        t = inputs.Tally()
+        fd_mixed_check(FrozenDict, tuple(case['keys']), t)
+        return ['%s expected=%r observed=%r' % (r[6], r[1], r[2]) for _, r in sorted(t.viols.items())]
     if kind == 'frozen':
         from boltons.dictutils import FrozenDict, FrozenHashError
         t = inputs.Tally()
